@@ -11,16 +11,21 @@ RULE = ("all histories of depth D over 20 top-level ops {tick spacing 1,2,31,32,
         "lib/efuns/call_out.c; deviations (budget B): a call_out issued after the clock advanced but before the sweep "
         "(7 delays), and a script run inside the callback {error, call_out 1/31/32/33, funptr call_out 32, remove by "
         "handle/by name, find, destruct self}; after every op find_call_out by handle and by name is compared for every "
-        "entry; lock-step reference scheduler; canonical state = wheel relative to now + model + step")
+        "entry; lock-step reference scheduler; canonical state = wheel relative to now + model + step; the same space again with "
+        "every string-named call_out of an object using ONE function name (by-name find/remove may pick any pending entry of "
+        "that name: exactly one entry must disappear and the value returned must be that entry's time left)")
 
 def run(ck):
     exe = build(ck)["h_c10"]
     if ck.tier == "quick":
         ck.explore(exe, ["--depth=3"], "d3", budget=1, deadline_s=600)
+        ck.explore(build(ck)["h_c10_plain"], ["--depth=3", "--shared=1"], "d3-shared-name", budget=1, deadline_s=300)
     else:
         # sanitized build at the quick bound with one more deviation; plain build (5x cheaper fork) one step deeper
         ck.explore(exe, ["--depth=3"], "d3", budget=2, deadline_s=1200)
         ck.explore(build(ck)["h_c10_plain"], ["--depth=4"], "d4-plain", budget=1, deadline_s=1800)
+        ck.explore(exe, ["--depth=3", "--shared=1"], "d3-shared-name", budget=2, deadline_s=1200)
+        ck.explore(build(ck)["h_c10_plain"], ["--depth=4", "--shared=1"], "d4-shared-name-plain", budget=1, deadline_s=1800)
     ck.finish(vlib.mc_coverage(ck.parts, RULE),
               assumptions=["time is the harness's virtual clock; current_time is set and call_out() called as call_heart_beat() does",
                            "call_outs of a destructed owner are not probed with find/remove (statement only says they are dropped)",
